@@ -147,6 +147,7 @@ Proof.
   - match goal with |- context [if ?b then Ok (t, false) else _] => destruct b end; intros H; inversion H; subst.
     exists e. split; [apply insert_at_in; left; reflexivity|exact Hsame].
   - apply Nat.leb_gt in Hle.
+    match goal with |- context [if ?b then Ok (t, false) else _] => destruct b end; [intros H; discriminate H|].
     match goal with |- context [match ?f with Some _ => _ | None => _ end] => destruct f as [i|] end.
     + intros H; inversion H; subst. exists e. split; [|exact Hsame].
       apply sort_section_in; [lia|]. apply replace_at_in_new.
@@ -168,7 +169,8 @@ Proof.
   match goal with |- context [dst_section t ?d] => destruct (dst_section t d) as [s en] end.
   destruct (Nat.leb en s).
   - match goal with |- context [if ?b then Ok (t, false) else _] => destruct b end; intros H; inversion H; reflexivity.
-  - match goal with |- context [match ?f with Some _ => _ | None => _ end] => destruct f as [i|] end; [intros H; inversion H|].
+  - match goal with |- context [if ?b then Ok (t, false) else _] => destruct b end; [intros H; inversion H; reflexivity|].
+    match goal with |- context [match ?f with Some _ => _ | None => _ end] => destruct f as [i|] end; [intros H; inversion H|].
     match goal with |- context [if ?b then Ok (insert_at _ _ _, true) else _] => destruct b end; [intros H; inversion H|].
     destruct (nth_error t (s + 2)) as [third|]; [|discriminate].
     match goal with |- context [if ?b then _ else Ok (t, false)] => destruct b end; intros H; inversion H; reflexivity.
